@@ -76,8 +76,25 @@ func tmpDir() string {
 	return os.TempDir()
 }
 
-// Run executes one job in a fresh child process.
+// Timeouts counts the children that did not finish in time and were re-run.
+var Timeouts int
+
+// Run executes one job in a fresh child process. A child that does not finish
+// in time says nothing about the property: it is re-run (twice at most).
 func Run(job *kjob.Job, o RunOpts) (*RunResult, error) {
+	var r *RunResult
+	var err error
+	for attempt := 0; attempt < 3; attempt++ {
+		r, err = runOnce(job, o)
+		if err != nil || !r.TimedOut {
+			return r, err
+		}
+		Timeouts++
+	}
+	return r, err
+}
+
+func runOnce(job *kjob.Job, o RunOpts) (*RunResult, error) {
 	name := "kchild"
 	if o.GOARCH == "386" {
 		name = "kchild_386"
@@ -125,8 +142,13 @@ func Run(job *kjob.Job, o RunOpts) (*RunResult, error) {
 		cmd.SysProcAttr = &syscall.SysProcAttr{}
 	}
 	cmd.SysProcAttr.Setpgid = true
-	cmd.Cancel = func() error { return syscall.Kill(-cmd.Process.Pid, syscall.SIGKILL) }
-	cmd.WaitDelay = 2 * time.Second
+	cmd.Cancel = func() error {
+		// ask the Go runtime of the child for a goroutine dump first (diagnostics of a hang), then kill the group
+		syscall.Kill(cmd.Process.Pid, syscall.SIGQUIT)
+		time.Sleep(300 * time.Millisecond)
+		return syscall.Kill(-cmd.Process.Pid, syscall.SIGKILL)
+	}
+	cmd.WaitDelay = 3 * time.Second
 	runErr := cmd.Run()
 	res := &RunResult{Stderr: stderr.String()}
 	if ctx.Err() == context.DeadlineExceeded {
